@@ -41,6 +41,11 @@ def gen_plan(rng, tier, idx, opts):
         if r < 0.31 and r >= 0.27:
             ops.append({"op": "plot", "seed": rng.randrange(1 << 30)})
             continue
+        if r < 0.34 and r >= 0.31:
+            # the model object is copied (copy.copy / copy.deepcopy); one of the two is used further, the other must keep
+            # answering for ITS parameters
+            ops.append({"op": "fork", "how": rng.choice(["copy", "copy", "deepcopy"]), "use_copy": rng.random() < 0.5})
+            continue
         if r < 0.27:
             # shadowing switched on (or off again): while it is on only the policy relations are defined (the loss is random;
             # the library draws from numpy's GLOBAL generator, which the world re-seeds before every query)
@@ -146,6 +151,7 @@ def execute(plan):
         add_violation(res, pid + "." + inv, step, detail, sg)
 
     shadow = {"on": False, "seed": 0}
+    others = []
     flags = {"policy": bool(obj.handle_small_distances_bool), "shadow": bool(obj.use_shadow_bool)}
 
     def shadow_relations(step):
@@ -392,6 +398,17 @@ def execute(plan):
                     obj.handle_small_distances_bool = bool(op["v"])
                     flags["policy"] = bool(op["v"])
                     last.update(op="policy", rejected=False)
+                elif o == "fork":
+                    if shadow["on"] or others:
+                        continue
+                    g2 = copy.copy(obj) if op["how"] == "copy" else copy.deepcopy(obj)
+                    if op["use_copy"]:
+                        others.append((obj, dict(flags)))
+                        obj = g2
+                    else:
+                        others.append((g2, dict(flags)))
+                    last.update(op="fork", rejected=False)
+                    bump(res["probes"], "model_forked_by_" + op["how"])
                 elif o == "plot":
                     # the plotting helper of the model (any object with a .plot method serves as the axes): it computes the
                     # deterministic curve through the public query and must leave the model as it found it
@@ -473,6 +490,22 @@ def execute(plan):
                     shadow_relations(step)
                 else:
                     relations(step)
+                if others and res["status"] == "ok" and o != "fork":
+                    # the object that is NOT used further: every relation must still hold for ITS public parameters
+                    main_, mflags_ = obj, dict(flags)
+                    obj = others[0][0]
+                    flags.update(others[0][1])
+                    try:
+                        if bool(obj.handle_small_distances_bool) != flags["policy"] or bool(obj.use_shadow_bool) != flags["shadow"]:
+                            viol("small_distance", step, "an operation on one copy of the model changed a flag of the other copy", rel="fork")
+                        else:
+                            relations(step)
+                            if res["status"] != "ok":
+                                res["violations"][-1]["detail"] = "on the copy of the model that was NOT touched since the fork: " + res["violations"][-1]["detail"]
+                                res["violations"][-1]["signature"]["fork"] = True
+                    finally:
+                        obj = main_
+                        flags.update(mflags_)
         # antenna gain: side assertion only (pure function; not what this check is for)
         ag = antennagain.AntGainBS3GPP25996(plan["sectors"])
         ang = np.sort(rs.uniform(-180, 180, size=12))
